@@ -190,69 +190,8 @@ def rule_fieldflow(P) -> RuleResult:
     sel = astm.assigns.get('Select')
     if not (isinstance(sel, ast.Call) and len(sel.args) == 2 and sel.args[1].value.split() == SELECT_FIELDS):
         raise AnalysisError('ast.Select no longer has the field list this rule knows')
-    spec = {
-        'transform_balances': ('Balances', {
-            'targets': 'cooked.targets', 'from_clause': 'node.from_clause', 'where_clause': 'node.where_clause',
-            'group_by': 'cooked.group_by', 'order_by': 'cooked.order_by', 'pivot_by': None, 'limit': None, 'distinct': None},
-            ['summary_func']),
-        'transform_journal': ('Journal', {
-            'targets': 'cooked.targets', 'from_clause': 'node.from_clause', 'where_clause': 'cooked.where_clause',
-            'group_by': None, 'order_by': None, 'pivot_by': None, 'limit': None, 'distinct': None},
-            ['summary_func', 'account']),
-    }
-    for fname, (cls, want, in_template) in spec.items():
-        fs = m.toplevel_funcs.get(fname)
-        if not fs:
-            raise AnalysisError(f'anchor vanished: compiler.{fname}')
-        fi = fs[-1]
-        p = fi.params[0]
-        rets = [n for n in ast.walk(fi.node) if isinstance(n, ast.Return)]
-        if len(rets) != 1 or not (isinstance(rets[0].value, ast.Call) and unparse(rets[0].value.func) == 'ast.Select'):
-            raise AnalysisError(f'{fi.fq}: does not return ast.Select(...)')
-        call = rets[0].value
-        cooked = None
-        for n in ast.walk(fi.node):
-            if isinstance(n, ast.Assign) and isinstance(n.value, ast.Call) and unparse(n.value.func) == 'parser.parse':
-                cooked = unparse(n.targets[0])
-        if cooked is None:
-            raise AnalysisError(f'{fi.fq}: template parse not found')
-        got = {}
-        for i, a in enumerate(call.args):
-            if i < len(SELECT_FIELDS):
-                got[SELECT_FIELDS[i]] = a
-        for k in call.keywords:
-            got[k.arg] = k.value
-        n0 = len(res.findings)
-        if len(call.args) + len(call.keywords) != len(SELECT_FIELDS):
-            res.fail(fi.fq, 'fieldflow:arity', f'ast.Select takes {len(SELECT_FIELDS)} fields; {fname} passes {len(call.args) + len(call.keywords)}', loc(fi, call))
-        for field, w in want.items():
-            g = got.get(field)
-            gs = None if g is None or is_none(g) else unparse(g).replace(cooked, 'cooked').replace(p + '.', 'node.')
-            if gs != w:
-                res.fail(fi.fq, f'fieldflow:{field}', f'the SELECT built for {cls} takes `{field}` from `{gs}`; it must come from '
-                         f'`{w}`' + (' (the clause of the statement is dropped)' if w and w.startswith('node.') else ''), loc(fi, call))
-        # fields that go into the template text
-        tsrc = unparse(fi.node)
-        for f_ in in_template:
-            if f'{p}.{f_}' not in tsrc:
-                res.fail(fi.fq, f'fieldflow:{f_}', f'`{f_}` of the {cls} statement is not used in its expansion', loc(fi))
-        if len(res.findings) == n0:
-            res.ok({'function': fi.fq, 'statement': cls, 'fields_flow': {**{k: v for k, v in want.items() if v}, **{f_: 'template' for f_ in in_template}}})
-    # PRINT: FROM clause compiled against the entries table
-    pr = P.func(CO, 'Compiler._print')
-    src = unparse(pr.node)
-    if "tables.get('entries')" not in src or 'self._compile_from(node.from_clause)' not in src or 'EvalPrint(self.table, ' not in src:
-        res.fail(pr.fq, 'fieldflow:print', 'PRINT must compile its FROM clause against the entries table and carry table and filter into EvalPrint', loc(pr))
-    else:
-        res.ok({'function': pr.fq, 'statement': 'Print', 'fields_flow': {'from_clause': '_compile_from'}})
-    # delegation in the compiler and the shell
-    comp = P.cls(CO, 'Compiler')
-    for meth, tr in (('_balances', 'transform_balances'), ('_journal', 'transform_journal')):
-        f = comp.methods.get(meth)
-        if f is None or f'self._compile({tr}(node))' not in unparse(f.node):
-            res.fail(f'{comp.fq}.{meth}', 'fieldflow:delegate', f'{meth} must compile the SELECT expansion {tr}(node)', loc(f) if f else '')
-        else:
-            res.ok({'handler': meth, 'compiles': f'{tr}(node)'})
+    from .sx_compiler import transform_cases
+    transform_cases(P, res)
     sh = P.modules.get(SH)
     if sh is not None:
         shell = sh.classes.get('BQLShell')
